@@ -22,7 +22,8 @@ package formatter
 //@   requires FormatsOK(commodityFormats)
 //@   ensures [nilcase] amount == nil ==> result == ""
 
-// The written form of a commodity symbol: as it is, or in double quotes (when it would not read back as one symbol).
+// The written form of a commodity symbol on the given side of the number: as it is, or in double quotes (when it would not
+// read back as one symbol there).
 //@ func commoditySymbolText
 //@   props C04 C05 C06
 //@   functional symtext
@@ -39,9 +40,9 @@ package formatter
 //@ func writeAmountWithSign
 //@   props C04 C05 C06
 //@   requires sb != nil && amount != nil && FormatsOK(commodityFormats)
-//@   ensures [C04:appends] hasprefix(*sb, old(*sb)) && len(*sb) >= len(old(*sb)) + len(symtext(amount.Commodity.Symbol)) && len(symtext(amount.Commodity.Symbol)) >= len(amount.Commodity.Symbol)
+//@   ensures [C04:appends] hasprefix(*sb, old(*sb)) && len(*sb) >= len(old(*sb)) + len(symtext(amount.Commodity.Symbol, amount.Commodity.Position == 0)) && len(symtext(amount.Commodity.Symbol, amount.Commodity.Position == 0)) >= len(amount.Commodity.Symbol)
 //@   ensures [C04:keeps_written] forall i int :: {(*sb)[i]} 0 <= i && i < len(old(*sb)) ==> (*sb)[i] == old(*sb)[i]
-//@   ensures [C04:symbol_leads_or_follows_a_sign] amount.Commodity.Position == 0 && len(amount.Commodity.Symbol) > 0 ==> (*sb)[len(old(*sb))] == symtext(amount.Commodity.Symbol)[0] || (((*sb)[len(old(*sb))] == '-' || (*sb)[len(old(*sb))] == '+') && (*sb)[len(old(*sb)) + 1] == symtext(amount.Commodity.Symbol)[0] && len(*sb) >= len(old(*sb)) + 1 + len(symtext(amount.Commodity.Symbol)))
+//@   ensures [C04:symbol_leads_or_follows_a_sign] amount.Commodity.Position == 0 && len(amount.Commodity.Symbol) > 0 ==> (*sb)[len(old(*sb))] == symtext(amount.Commodity.Symbol, amount.Commodity.Position == 0)[0] || (((*sb)[len(old(*sb))] == '-' || (*sb)[len(old(*sb))] == '+') && (*sb)[len(old(*sb)) + 1] == symtext(amount.Commodity.Symbol, amount.Commodity.Position == 0)[0] && len(*sb) >= len(old(*sb)) + 1 + len(symtext(amount.Commodity.Symbol, amount.Commodity.Position == 0)))
 //@   modifies *sb
 
 // ---- C05: alignment column and well-formed edits; C04: lines that are not postings only lose trailing blanks ----
@@ -72,7 +73,7 @@ package formatter
 //@   ensures [C05:indent_first] hasprefix(result, indent)
 //@   ensures [C04,C05:two_blanks] posting.Amount != nil ==> (forall n int :: {result[n]} AcctEnd(posting, indent, n) ==> len(result) >= n + 2 && result[n] == ' ' && result[n + 1] == ' ')
 //@   ensures [C05:amount_column] posting.Amount != nil && alignAmounts && alignment.AccountCol > 0 ==> spaces__1 == ite(alignment.AccountCol - rcount(AcctText(posting, indent)) >= 2, alignment.AccountCol - rcount(AcctText(posting, indent)), 2)
-//@   ensures [C04:symbol_leads_amount] posting.Amount != nil && posting.Amount.Commodity.Position == 0 && len(posting.Amount.Commodity.Symbol) > 0 ==> (forall n int :: {result[n + spaces__1]} AcctEnd(posting, indent, n) ==> result[n + spaces__1] == symtext(posting.Amount.Commodity.Symbol)[0] || ((result[n + spaces__1] == '-' || result[n + spaces__1] == '+') && result[n + spaces__1 + 1] == symtext(posting.Amount.Commodity.Symbol)[0]))
+//@   ensures [C04:symbol_leads_amount] posting.Amount != nil && posting.Amount.Commodity.Position == 0 && len(posting.Amount.Commodity.Symbol) > 0 ==> (forall n int :: {result[n + spaces__1]} AcctEnd(posting, indent, n) ==> result[n + spaces__1] == symtext(posting.Amount.Commodity.Symbol, posting.Amount.Commodity.Position == 0)[0] || ((result[n + spaces__1] == '-' || result[n + spaces__1] == '+') && result[n + spaces__1 + 1] == symtext(posting.Amount.Commodity.Symbol, posting.Amount.Commodity.Position == 0)[0]))
 //@   ensures [C04:cost_kept] posting.Amount == nil && posting.Cost != nil ==> (forall n int :: {result[n]} AcctEnd(posting, indent, n) ==> len(result) >= n + 3 && result[n] == ' ' && result[n + 1] == '@' && (result[n + 2] == ' ' || result[n + 2] == '@'))
 // The amount column of a transaction is the file-wide column it is handed, whatever its own postings look like (one
 // common column); the assertion column, when there is one, lies at least two blanks after it.
